@@ -28,8 +28,20 @@ def replay(pid, path, seed):
         for e in rec["history"]:
             f.write(json.dumps(e) + "\n")
     if rec.get("kind") == "table":
-        V.log("table mismatch recorded: %s" % json.dumps(V.slim(rec["history"][0]))[:800])
-        V.log("re-run the check to recompute the table comparison")
+        row = rec["history"][0]
+        if "steps" in row:      # a TLC-generated behaviour: replay it again on a fresh build
+            beh = os.path.join(ctx.dir, "replay.behaviour.ndjson")
+            with open(beh, "w") as f:
+                f.write(json.dumps({k: row[k] for k in row if k in ("steps", "pred")}) + "\n")
+            rep = V.table_compare(ctx, beh, name="behaviour", as_behaviours=True)
+            if rep.get("mismatches"):
+                V.log("  %s" % json.dumps(V.slim(rep["mismatches"][0]))[:800])
+                V.log("VIOLATION property=%s replay=%s" % (pid, path))
+                return 1
+            V.log("behaviour accepted on replay: not reproduced")
+            return 0
+        V.log("table mismatch recorded: %s" % json.dumps(V.slim(row))[:800])
+        V.log("re-run the check to recompute the exhaustive table comparison")
         return 1
     rc, o = V.sh([V.BIN, "replay", pid, "-in", inp, "-out", outp], timeout=600)
     if rc != 0:
@@ -182,11 +194,15 @@ def c16(ctx):
 def c17(ctx):
     thorough = ctx.tier == "thorough"
     V.mc(ctx, "MC_C17", cfg="MC_C17_thorough.cfg" if thorough else "MC_C17.cfg")
+    beh = os.path.join(ctx.dir, "c17.behaviours.ndjson")
+    V.tlc_emit(ctx, "Sim_C17", beh, simulate="num=%d" % (2000 if thorough else 150),
+               extra=["-depth", "10", "-seed", str(ctx.seed)], timeout=1800)
+    V.table_compare(ctx, beh, name="behaviours", as_behaviours=True)
     summ = V.gen_traces(ctx, shards=8)
     V.validate(ctx, "Trace_C17", summ, V.default_sig)
     return V.finish(ctx, "model_checking",
                     rule="MC: all call histories up to depth 4 (5 thorough) over packets (PUSI x has-payload x 4 payloads), Reset, and 12 threshold/failing predicates; "
-                         "invariants restate C17 from the recorded history. B3: random histories (2..10 calls) of WritePacket/Reset on a real accumulator with 188-byte packets "
+                         "invariants restate C17 from the recorded history. B2: TLC-simulated behaviours of the specification (depth 10) with expected result class, bytes and held packets replayed on a real accumulator. B3: random histories (2..10 calls) of WritePacket/Reset on a real accumulator with 188-byte packets "
                          "(payload-only, AF of every size incl. 183 = empty payload, AF-only), threshold/failing predicates; after every call the error class, Bytes() and Packets() "
                          "(after scribbling over the input packet and over previously returned slices) are validated by TLC as a step of Accumulator. class = (PUSI, AFC, result, packets held)",
                     trace_module="Trace_C17", sigfn=V.default_sig,
